@@ -80,11 +80,24 @@ Definition parse_label_matcher : M matcher :=
   | _ => ret {| m_label := l; m_op := op; m_value := text v |}
   end.
 
-(** parseSelector *)
+(** parseSelector.  Since the fix of D29 a keyword token in label-name position of a selector (anything but a String whose
+    text is a valid label name: by, on, json, ...) is re-typed to Ident before the matcher is parsed. *)
+Definition retype_kw : M unit := fun s =>
+  match rest s with
+  | t :: r =>
+      if negb (is_ty t TString) && is_valid_label (text t)
+      then POk tt {| prev := prev s;
+                     rest := {| ty := TIdent; text := text t; v_float := v_float t; v_int := v_int t; v_dur := v_dur t;
+                                v_bytes := v_bytes t; v_re := v_re t; v_re_anch := v_re_anch t |} :: r |}
+      else POk tt s
+  | [] => POk tt s
+  end.
+
 Fixpoint matchers_loop (fuel : nat) (acc : list matcher) : M (list matcher) :=
   match fuel with
   | O => fun _ => PFuel
   | S f =>
+    retype_kw ;;
     do m <- parse_label_matcher;
     do t <- next;
     if is_ty t TCloseBrace then ret (acc ++ [m])
